@@ -86,7 +86,7 @@ InvAfterExit(f) ==
   IF f.panicked /\ cfg.panicH THEN [f EXCEPT !.pc = "panich"]
   ELSE IF cfg.obs THEN [f EXCEPT !.pc = "hdone"] ELSE [f EXCEPT !.pc = "end"]
 InvAfterPanicH(f) == IF cfg.obs THEN [f EXCEPT !.pc = "hdone"] ELSE [f EXCEPT !.pc = "end"]
-InvAfterHStart(f) == IF attr[f.reg].seq THEN [f EXCEPT !.pc = "lock"] ELSE [f EXCEPT !.pc = "enter"]
+InvAfterHStart(f) == [f EXCEPT !.pc = "enter"]
 InvStart(f) == IF cfg.obs THEN [f EXCEPT !.pc = "hstart"] ELSE InvAfterHStart(f)
 NewInv(r, p, async, pg, n, ctx) ==
   [k |-> "inv", reg |-> r, pub |-> p, async |-> async, pc |-> "new", panicked |-> FALSE, pg |-> pg, n |-> n, ctx |-> ctx]
@@ -111,7 +111,7 @@ CanCall(g) == /\ g \in Gs
                  \/ stack[g] # <<>> /\ Top(g).k = "inv" /\ Top(g).pc = "body"
 
 \* tasks whose handler body has not started yet
-WaitingTasks == {k \in Tasks : Top(k).pc \in {"tctx", "hstart", "lock", "enter"}}
+WaitingTasks == {k \in Tasks : Top(k).pc \in {"tctx", "hstart", "enter"}}
 
 (***************************************************************************)
 (* Ghost bookkeeping.                                                      *)
@@ -374,18 +374,18 @@ FifoInversion(g) ==
   /\ <<Top(g).reg, Top(g).pg>> \in DOMAIN gh.seqMax
   /\ gh.seqMax[<<Top(g).reg, Top(g).pg>>] > Top(g).n
 
-\* internal: a Sequential registration's mutex is taken (blocks while another invocation holds it)
-SeqAcquire(g) ==
-  /\ InvAt(g, "lock")
-  /\ Top(g).reg \notin DOMAIN seqHolder
-  /\ (FifoLock /\ Top(g).async) => EarlierWaiting(g) = {}
-  /\ seqHolder' = (Top(g).reg :> g) @@ seqHolder
-  /\ SetTop(g, [Top(g) EXCEPT !.pc = "enter"])
-  /\ UNCHANGED <<cfg, reg, attr, fired, cancelled, closed, pubs, npub, gh>>
+\* A Sequential registration's mutex is taken right before its body starts (nothing is observable between the
+\* acquisition and the start of the body, so the two are one step): the body can only start while no other
+\* invocation of the registration is inside, and - with a ticket lock - when it is its turn.
+SeqFree(g) ==
+  attr[Top(g).reg].seq =>
+    /\ Top(g).reg \notin DOMAIN seqHolder
+    /\ (FifoLock /\ Top(g).async) => EarlierWaiting(g) = {}
 
-\* (E) the handler body of registration r starts running for publish p
-Enter(g, r, p) ==
+\* the effect of starting the handler body of registration r for publish p
+EnterBody(g, r, p) ==
   /\ InvAt(g, "enter") /\ Top(g).reg = r /\ Top(g).pub = p
+  /\ seqHolder' = IF attr[r].seq THEN (r :> g) @@ seqHolder ELSE seqHolder
   /\ SetTop(g, [Top(g) EXCEPT !.pc = "body"])
   /\ gh' = [gh EXCEPT
         !.got = IF Top(g).async THEN @ ELSE [@ EXCEPT ![p] = @ \cup {r}],
@@ -398,7 +398,10 @@ Enter(g, r, p) ==
                   \cup Flag(attr[r].once /\ r \in gh.onceRan, "onceTwice")
                   \cup Flag(attr[r].seq /\ r \in gh.inside, "overlap")
                   \cup Flag(FifoInversion(g), "fifo")]
-  /\ UNCHANGED <<cfg, reg, attr, fired, seqHolder, cancelled, closed, pubs, npub>>
+  /\ UNCHANGED <<cfg, reg, attr, fired, cancelled, closed, pubs, npub>>
+
+\* (E) the handler body of registration r starts running for publish p
+Enter(g, r, p) == InvAt(g, "enter") /\ SeqFree(g) /\ EnterBody(g, r, p)
 
 \* (E) the handler body returns (panicked = it panicked); a Sequential mutex is released
 Exit(g, r, p, panicked) ==
@@ -473,7 +476,7 @@ PubRet(g) ==
 InternalStep(g) ==
   \/ OpLin(g) \/ ClearAllDone(g) \/ ShutdownDone(g) \/ ShutdownCtx(g)
   \/ \E t \in Types : ClearAllStep(g, t)
-  \/ Snapshot(g) \/ Claim(g) \/ Dispatch(g) \/ TaskStart(g) \/ SeqAcquire(g) \/ Retire(g)
+  \/ Snapshot(g) \/ Claim(g) \/ Dispatch(g) \/ TaskStart(g) \/ Retire(g)
 
 \* ------------------------------------------------------------ properties
 TypeOK ==
